@@ -811,6 +811,10 @@ type planFile struct {
 	items     []planItem
 }
 
+// user validation salts for which Algorithm 2.B (password "correct horse", no user key) stops exactly at the
+// boundary of its termination rule: after 64 rounds, and after 77 rounds
+var boundarySalts = []string{"000000000000002c", "00000000000000a8"}
+
 var edgeNums = []uint32{3, 255, 256, 257, 65535, 65536, 65537, 1<<24 - 1, 1<<24 - 2, 70000, 1 << 16, 1 << 23}
 var edgeGens = []uint16{0, 1, 255, 256, 257, 65535, 65534}
 
@@ -839,6 +843,7 @@ func (rn *run) planPhase2() {
 		panic(err)
 	}
 	defer f.Close()
+	r6seen := 0
 	for _, k := range files {
 		u := pws[e.Rand.IntN(len(pws))]
 		o := pws[1+e.Rand.IntN(len(pws)-1)]
@@ -871,7 +876,18 @@ func (rn *run) planPhase2() {
 		plain := k.V >= 4 && e.Rand.IntN(3) == 0
 		rnd := "- - - -"
 		if k.V == 5 {
-			rnd = fmt.Sprintf("%s %s %s %s", common.Hex(randBytes(e, 32)), common.Hex(randBytes(e, 16)), common.Hex(randBytes(e, 16)), common.Hex(randBytes(e, 4)))
+			usalt := randBytes(e, 16)
+			if k.bits == 256 && r6seen < len(boundarySalts) {
+				// corpus: Algorithm 2.B ends exactly in the boundary case of step (e)/(f) (last byte of E equal to
+				// round number - 32) for this password and user validation salt
+				u = "correct horse"
+				rawU, _ = rawPrep(R, u)
+				copy(usalt, common.UnHex(boundarySalts[r6seen]))
+			}
+			if k.bits == 256 {
+				r6seen++
+			}
+			rnd = fmt.Sprintf("%s %s %s %s", common.Hex(randBytes(e, 32)), common.Hex(usalt), common.Hex(randBytes(e, 16)), common.Hex(randBytes(e, 4)))
 		}
 		nobj := 2 + e.Rand.IntN(4)
 		used := map[uint32]bool{1: true, 2: true}
